@@ -77,7 +77,9 @@ def run_case(case, seed):
     from . import c03lib, session_driver as sd
     c = case["c"]
     rng = random.Random("%s|%s" % (json.dumps(c, sort_keys=True), seed))
-    opts = OPTS[c["opts"]]
+    popts = OPTS[c["opts"]]                               # what the [tool.black] section says
+    loc = c.get("loc", "own")
+    opts = {} if loc == "gitstop" else popts              # what black itself uses for the file (spec: EffOpts)
     limit = opts.get("line-length", 88)
     val = value_expr(c["shape"], limit, rng)
     old_arg = "" if c["cats"] == "create" else "[0]"
@@ -98,7 +100,14 @@ def run_case(case, seed):
     try:
         proj = root / "proj"
         (proj / "tests").mkdir(parents=True)
-        (proj / "pyproject.toml").write_text(pyproject(opts, c["fmtcmd"]))
+        if loc == "own":
+            (proj / "pyproject.toml").write_text(pyproject(popts, c["fmtcmd"]))
+        else:
+            # the options are one directory further up; the project's own pyproject.toml has no [tool.black]
+            (root / "pyproject.toml").write_text(pyproject(popts, False))
+            (proj / "pyproject.toml").write_text('[project]\nname = "pkg"\nversion = "1"\n')
+            if loc == "gitstop":
+                (proj / ".git").mkdir()                   # black stops here: its defaults apply
         f = proj / "tests" / "test_f.py"
         f.write_text(src)
         cwd = {"root": proj, "sub": proj / "tests", "outside": root}[c["cwd"]]
@@ -106,7 +115,13 @@ def run_case(case, seed):
         r = sd.run_fork(proj, args, cwd=cwd, timeout=120)
         new = f.read_text()
         mism = []
-        info = {"options": opts, "cwd": c["cwd"], "old": src, "new": new, "rc": r["rc"]}
+        info = {"options": popts, "location": loc, "effective_options": opts, "cwd": c["cwd"], "old": src, "new": new, "rc": r["rc"]}
+        # the independent oracle agrees with black's own command line about the effective options
+        if loc != "own" and c["clean"]:
+            import subprocess
+            chk = subprocess.run([sys.executable, "-m", "black", "--check", "-q", str(f)], cwd=str(cwd), capture_output=True, text=True)
+            if chk.returncode != 0 and fmt(new, opts) == new:
+                mism.append({"clause": "oracle", "props": [], "detail": {"black_cli": chk.stderr[-300:]}})
         if new == src:
             mism.append({"clause": "nothing-written", "props": [], "detail": {"stdout": r["stdout"][-600:]}})
             return mism, info
